@@ -20,11 +20,16 @@ def norm(path):
     path = _COPIA_RE.sub('', path)
     if '<impl ' in path:
         path = _IMPL_RE.sub(lambda m: m.group(1) + '::', path)
+        if ' for ' in path and not path.startswith(('std::', 'core::', 'alloc::')):
+            path = _TRAIT_IMPL_RE.sub(lambda m: '<%s as %s>::' % (m.group(2), m.group(1)), path)
     for rx, rep in _ALIASES:
         path = rx.sub(rep, path)
     return path
 
 
+# `serve::<impl std::convert::From<serve::Refusal> for wire::Response>::from` (how a body of a trait impl for a foreign type is
+# named) is `<wire::Response as std::convert::From<serve::Refusal>>::from` (how a call to it is named)
+_TRAIT_IMPL_RE = re.compile(r'(?<![A-Za-z0-9_:])(?:[a-z_][a-z0-9_]*::)+<impl ((?:[^<>]|<[^<>]*>)+?) for ((?:[^<>]|<[^<>]*>)+?)>::')
 _IMPL_RE = re.compile(r'(?<![A-Za-z0-9_:])(?!(?:core|std|alloc)::)(?:[a-z_][a-z0-9_]*::)+<impl ([a-z_][a-z0-9_]*::[A-Za-z_][A-Za-z0-9_:]*)>::')
 
 
